@@ -19,7 +19,7 @@ RULE = ('case = outcome word over {delivered+acked, uplink lost, ack lost} (ALL 
         'submission schedule, observed frame-sequence hash).')
 ASSUMPTIONS = ['peer model = nRF51 ESB safelink rules (see vf/radiosim.py)', 'each transmission costs 1 ms of virtual time',
                'null packet = header 0xFF/0xF3 with empty payload; the 3-byte ff 05 01 negotiation frame is not data']
-REQUIRED = ['mon.words_exhaustive', 'mon.random_words', 'mon.uplink_packets', 'mon.downlink_packets', 'mon.downlink_header_only_packets', 'mon.link_errors_expected',
+REQUIRED = ['mon.words_exhaustive', 'mon.random_words', 'mon.uplink_packets', 'mon.downlink_packets', 'mon.downlink_header_only_packets', 'mon.uplink_header_only_packets', 'mon.link_errors_expected',
             'mon.negotiation_loss_cases', 'mon.no_safelink_cases', 'mon.full_stack_cases', 'mon.multi_submitter_cases',
             'mon.second_start_up_of_the_same_driver_object']
 EXHAUSTIVE = {'quick': False, 'thorough': False}
@@ -67,7 +67,8 @@ def one(ctx, word, n_up, n_down, sub_pos, down_pos, N, safelink=True, nsub=1, ss
     import cflib.crtp.radiodriver as rd
     from cflib.crtp.crtpstack import CRTPPacket
     rnd = random.Random(sseed)
-    ups = [mkpk(1000 + i, rnd) for i in range(n_up)]
+    # (header-only uplink packets only with one submitter: they carry no id to attribute them to a submitter)
+    ups = [mkpk(1000 + i, rnd, header_only_ok=(nsub == 1)) for i in range(n_up)]
     downs = [mkpk(2000 + i, rnd, header_only_ok=True) for i in range(n_down)]
     peer = radiosim.Peer(supports_safelink=safelink, echo_garbage=garbage)
     radio = radiosim.ScriptedRadio(peer, [SYM[x] if isinstance(x, int) else x for x in word])
@@ -211,6 +212,7 @@ def one(ctx, word, n_up, n_down, sub_pos, down_pos, N, safelink=True, nsub=1, ss
         got_up = [((f[0] | 0x0C), f[1:]) for f in acc]
         want_up = [ups[i] for i in ob['accepted_by_send']]
         ctx.count('mon.uplink_packets', len(want_up))
+        ctx.count('mon.uplink_header_only_packets', sum(1 for q in want_up if not q[1]))
         if nsub == 1:
             okup = got_up == want_up
         else:
@@ -334,7 +336,7 @@ def run_stack(desc, ctx, rnd):
     dev = radiosim.FakeUsbRadio(outcomes=word)
     peer = radiosim.Peer()
     dev.peers[(chan, rate, addr)] = peer
-    ups = [mkpk(1000 + i, rnd) for i in range(rnd.randint(1, 25))]
+    ups = [mkpk(1000 + i, rnd, header_only_ok=True) for i in range(rnd.randint(1, 25))]
     downs = [mkpk(2000 + i, rnd, header_only_ok=True) for i in range(rnd.randint(1, 25))]
     for d in downs:
         peer.queue(bytes([d[0]]) + d[1])
